@@ -360,10 +360,11 @@ Proof.
   pose proof (pow10_pos (d_scale d)) as Hpp.
   pose proof (N.div_mod (d_mant d) (pow10 (d_scale d)) ltac:(lia)) as Hdm. rewrite Hi in Hdm.
   unfold fmt_prec, parse_dec_exact. rewrite Hn, whole_chars_eq. cbn [app Nat.eqb].
-  rewrite <- (app_nil_r (chars _)). rewrite parse_unsigned by assumption.
-  rewrite scan_whole; [|assumption| |assumption].
-  2: { rewrite HVW, Hip. unfold int_part. nia. }
-  cbn [dec_scan bind]. eexists. split; [reflexivity|].
+  eexists. split.
+  { rewrite parse_unsigned by assumption.
+    rewrite scan_whole; [|assumption| |assumption].
+    2: { rewrite HVW, Hip. unfold int_part. nia. }
+    cbn [dec_scan bind]. reflexivity. }
   unfold dec_of_parts. cbn [fst snd andb]. split; cbn [d_neg d_mant d_scale mk_dec]; [assumption|].
   rewrite HVW, Hip, pow10_0. unfold int_part. lia.
 Qed.
@@ -409,8 +410,8 @@ Definition two_ok (n : N) : bool :=
   | [a; b] => forallb is_digit [a; b] && (val [dig a; dig b] =? n)
   | _ => false
   end.
-Lemma all_below (f : N -> bool) (bound : nat) :
-  forallb f (map N.of_nat (seq 0 bound)) = true -> forall n, n < N.of_nat bound -> f n = true.
+Lemma all_below (f : N -> bool) (bound : N) :
+  forallb f (map N.of_nat (seq 0 (N.to_nat bound))) = true -> forall n, n < bound -> f n = true.
 Proof.
   intros H n Hn. rewrite forallb_forall in H. apply H. apply in_map_iff.
   exists (N.to_nat n). split; [apply N2Nat.id|]. apply in_seq. lia.
@@ -439,12 +440,13 @@ Proof.
   intros Hv. destruct (valid_date_bounds d Hv) as [Hy [Hm Hd]].
   pose proof (years_ok _ Hy) as Y. pose proof (twos_ok _ Hm) as M. pose proof (twos_ok _ Hd) as D.
   unfold year_ok in Y. unfold two_ok in M, D. unfold show_date.
-  destruct (chars (pad_left 4 (digits (dt_y d)))) as [|y1 [|y2 [|y3 [|y4 [|? ?]]]]]; try discriminate.
-  destruct (chars (pad_left 2 (digits (dt_m d)))) as [|m1 [|m2 [|? ?]]]; try discriminate.
-  destruct (chars (pad_left 2 (digits (dt_d d)))) as [|d1 [|d2 [|? ?]]]; try discriminate.
+  destruct (chars (pad_left 4 (digits (dt_y d)))) as [|y1 [|y2 [|y3 [|y4 [|y5 yr]]]]]; try discriminate.
+  destruct (chars (pad_left 2 (digits (dt_m d)))) as [|m1 [|m2 [|m3 mr]]]; try discriminate.
+  destruct (chars (pad_left 2 (digits (dt_d d)))) as [|d1 [|d2 [|d3 dr]]]; try discriminate.
   apply andb_prop in Y. destruct Y as [Y1 Y2]. apply andb_prop in M. destruct M as [M1 M2].
   apply andb_prop in D. destruct D as [D1 D2]. apply N.eqb_eq in Y2, M2, D2.
-  cbn [forallb] in Y1, M1, D1. rewrite !andb_true_iff in Y1, M1, D1.
+  cbn [forallb] in Y1, M1, D1. repeat rewrite andb_true_iff in Y1. repeat rewrite andb_true_iff in M1.
+  repeat rewrite andb_true_iff in D1.
   destruct Y1 as [Ya [Yb [Yc [Yd _]]]]. destruct M1 as [Ma [Mb _]]. destruct D1 as [Da [Db _]].
   cbn [app]. split.
   - unfold parse_date. cbn [forallb]. rewrite Ya, Yb, Yc, Yd, Ma, Mb, Da, Db. cbn [andb N.eqb Pos.eqb].
@@ -481,6 +483,9 @@ Proof.
   apply negb_true_iff. apply H. apply in_rev. rewrite E. left. reflexivity.
 Qed.
 
+Lemma last_not_bang_tsmp k d : match rev (tsmp k d) with c :: _ => c =? 33 | [] => false end = false.
+Proof. apply last_not_bang. Qed.
+
 Theorem sfl_roundtrip v :
   valid_sfl v = true ->
   parse_sfl (show_sfl v) = Ok (rp_sfl v) /\ dec_same (sf_val v) (sf_val (rp_sfl v))
@@ -490,12 +495,266 @@ Proof.
   destruct (rp_dec_spec 2 (sf_val v) Hv ltac:(lia)) as [E [Hs [Hv' Ht]]].
   assert (Hl' : dec_lez (rp_dec 2 (sf_val v)) = true) by (rewrite <- (dec_same_lez _ _ Hs); exact Hl).
   split; [|split; [exact Hs|split]].
-  - unfold parse_sfl, show_sfl. destruct (sf_force v) eqn:Ef.
+  - unfold parse_sfl, show_sfl, rp_sfl. destruct (sf_force v) eqn:Ef.
     + rewrite rev_app_distr. cbn [rev app N.eqb Pos.eqb]. rewrite removelast_last, E, Hl'. reflexivity.
-    + rewrite app_nil_r. unfold tsmp at 1. rewrite last_not_bang. rewrite E, Hl'. reflexivity.
+    + rewrite app_nil_r. rewrite !last_not_bang_tsmp. rewrite E, Hl'. reflexivity.
   - unfold show_sfl, rp_sfl. cbn [sf_val sf_force]. rewrite Ht. reflexivity.
   - unfold show_sfl. destruct (fmt_prec_all_edge (Nat.max (trimmed_prec (sf_val v)) 2) (sf_val v)) as [Ha Hn].
     apply edges_all.
     + unfold tsmp. destruct (fmt_prec _ _); [discriminate|reflexivity].
     + unfold tsmp. rewrite forallb_app, Ha. destruct (sf_force v); reflexivity.
+Qed.
+
+(* ---------------------------------------------------------------- split ratios *)
+Lemma chars_forall (P : N -> bool) ds :
+  (forall x, x < 10 -> P (x + 48) = true) -> Forall (fun x => x < 10) ds -> forallb P (chars ds) = true.
+Proof.
+  intros Hd. induction 1 as [|x l Hx _ IH]; [reflexivity|]. cbn [chars map forallb]. fold (chars l).
+  rewrite Hd by assumption. exact IH.
+Qed.
+Lemma digit_char_is_digit x : x < 10 -> is_digit (x + 48) = true.
+Proof. intros H. apply is_digit_char. exact H. Qed.
+Lemma digit_char_is_digdot x : x < 10 -> is_digdot (x + 48) = true.
+Proof. intros H. unfold is_digdot. rewrite digit_char_is_digit by assumption. reflexivity. Qed.
+
+(* shape of the rendering of a non-negative decimal *)
+Lemma fmt_prec_unsigned p d :
+  d_neg d = false ->
+  exists w t, Forall (fun x => x < 10) w /\ is_nil w = false /\ Forall (fun x => x < 10) t
+              /\ length t = p
+              /\ fmt_prec p d = chars w ++ (if (p =? 0)%nat then [] else 46 :: chars t).
+Proof.
+  intros Hn. destruct (digits_parts d) as [HW HF]. destruct (whole'_props _ HW) as [HW' [_ HN]].
+  exists (whole' (whole_digits d)), (take_pad p (frac_digits d)).
+  repeat split; auto.
+  - apply take_pad_forall, HF.
+  - unfold take_pad. rewrite firstn_length, app_length, zeros_length. lia.
+  - unfold fmt_prec. rewrite Hn, whole_chars_eq. reflexivity.
+Qed.
+
+Lemma hdd_digits s : forallb is_digit s = true -> has_dot_digit s = false.
+Proof.
+  induction s as [|a r IH]; intros H; [reflexivity|]. cbn [forallb] in H. apply andb_prop in H.
+  destruct H as [Ha Hr]. cbn [has_dot_digit]. destruct r as [|b r']; [reflexivity|].
+  rewrite (IH Hr). unfold is_digit in Ha. destruct (N.eqb_spec a 46) as [->|_]; [discriminate Ha|reflexivity].
+Qed.
+Lemma hdd_app_dot x c y : is_digit c = true -> has_dot_digit (x ++ 46 :: c :: y) = true.
+Proof.
+  intros Hc. induction x as [|a r IH].
+  - cbn. rewrite Hc. reflexivity.
+  - cbn [app has_dot_digit]. destruct (r ++ 46 :: c :: y) eqn:E.
+    + destruct r; discriminate.
+    + rewrite IH. apply orb_true_r.
+Qed.
+
+Lemma hdd_fmt p d :
+  d_neg d = false -> has_dot_digit (fmt_prec p d) = negb (p =? 0)%nat.
+Proof.
+  intros Hn. destruct (fmt_prec_unsigned p d Hn) as [w [t [HW [_ [HT [HL E]]]]]]. rewrite E.
+  destruct (Nat.eqb_spec p 0) as [->|Hp]; cbn [negb].
+  - rewrite app_nil_r. apply hdd_digits. apply chars_forall; [apply digit_char_is_digit|assumption].
+  - destruct t as [|t0 t']; [cbn in HL; lia|]. inversion HT; subst. cbn [chars map]. apply hdd_app_dot.
+    apply digit_char_is_digit. assumption.
+Qed.
+
+Lemma digdot_fmt p d : d_neg d = false -> forallb is_digdot (fmt_prec p d) = true /\ is_nil (fmt_prec p d) = false.
+Proof.
+  intros Hn. destruct (fmt_prec_unsigned p d Hn) as [w [t [HW [HN [HT [HL E]]]]]]. rewrite E. split.
+  - rewrite forallb_app, (chars_forall is_digdot w digit_char_is_digdot HW).
+    destruct (p =? 0)%nat; [reflexivity|]. cbn [forallb andb].
+    change (is_digdot 46) with true. apply (chars_forall is_digdot t digit_char_is_digdot HT).
+  - destruct w; [discriminate|reflexivity].
+Qed.
+
+Lemma span_digdot_app a rest :
+  forallb is_digdot a = true -> match rest with [] => True | c :: _ => is_digdot c = false end ->
+  span_digdot (a ++ rest) = (a, rest).
+Proof.
+  intros Ha Hr. induction a as [|x a IH].
+  - cbn [app]. destruct rest as [|c r]; [reflexivity|]. cbn [span_digdot]. rewrite Hr. reflexivity.
+  - cbn [forallb] in Ha. apply andb_prop in Ha. destruct Ha as [Hx Ha].
+    cbn [app span_digdot]. rewrite Hx, (IH Ha). reflexivity.
+Qed.
+
+Lemma parse_ratio_parts a b post' pre' :
+  forallb is_digdot a = true -> is_nil a = false -> forallb is_digdot b = true -> is_nil b = false ->
+  trim (a ++ s_for ++ b) = a ++ s_for ++ b ->
+  parse_dec_exact a = Ok post' -> parse_dec_exact b = Ok pre' ->
+  dec_pos post' = true -> dec_pos pre' = true ->
+  parse_ratio (a ++ s_for ++ b)
+  = Ok (let rio := negb (has_dot_digit a) && negb (has_dot_digit b) in
+        let r := {| r_post := post'; r_pre := pre'; r_rio := rio |} in
+        if ratio_is_reverse r then r else {| r_post := post'; r_pre := pre'; r_rio := false |}).
+Proof.
+  intros Ha Na Hb Nb Ht Ea Eb Pa Pb. unfold parse_ratio. rewrite Ht.
+  rewrite (span_digdot_app a (s_for ++ b) Ha) by reflexivity. rewrite Na.
+  change (strip_for (s_for ++ b)) with (Some b).
+  rewrite <- (app_nil_r b) at 1. rewrite (span_digdot_app b [] Hb I). rewrite Nb. cbn [orb negb is_nil].
+  rewrite Ea, Pa, Eb, Pb. reflexivity.
+Qed.
+
+Lemma is_integer_scale n m s e :
+  dec_is_integer (mk_dec n (m * pow10 e) (s + e)) = dec_is_integer (mk_dec n m s).
+Proof.
+  unfold dec_is_integer. cbn [d_mant d_scale mk_dec]. rewrite pow10_add.
+  pose proof (pow10_pos s). pose proof (pow10_pos e).
+  rewrite N.mul_mod_distr_r by lia.
+  destruct (N.eqb_spec (m mod pow10 s) 0) as [E|E].
+  - rewrite E. reflexivity.
+  - apply N.eqb_neq. nia.
+Qed.
+Lemma dec_same_integer a b : dec_same a b -> dec_is_integer a = dec_is_integer b.
+Proof.
+  intros H. destruct (Nat.le_ge_cases (d_scale a) (d_scale b)) as [Hle|Hle].
+  - rewrite (same_scaled a b H Hle), is_integer_scale, <- dec_eta. reflexivity.
+  - assert (H' : dec_same b a) by (destruct H; split; auto).
+    rewrite (same_scaled b a H' Hle), is_integer_scale, <- dec_eta. reflexivity.
+Qed.
+
+Lemma mag_ltb_same a a' b b' : dec_same a a' -> dec_same b b' -> mag_ltb a b = mag_ltb a' b'.
+Proof.
+  intros [_ Ha] [_ Hb]. unfold mag_ltb.
+  pose proof (pow10_pos (d_scale a)) as P1. pose proof (pow10_pos (d_scale a')) as P2.
+  pose proof (pow10_pos (d_scale b)) as P3. pose proof (pow10_pos (d_scale b')) as P4.
+  set (x := d_mant a) in *. set (x' := d_mant a') in *. set (y := d_mant b) in *. set (y' := d_mant b') in *.
+  set (X := pow10 (d_scale a)) in *. set (X' := pow10 (d_scale a')) in *.
+  set (Y := pow10 (d_scale b)) in *. set (Y' := pow10 (d_scale b')) in *.
+  assert (K : x * Y * (X' * Y') = x' * Y' * (X * Y)).
+  { replace (x * Y * (X' * Y')) with (x * X' * (Y * Y')) by lia. rewrite Ha. lia. }
+  assert (L : y * X * (X' * Y') = y' * X' * (X * Y)).
+  { replace (y * X * (X' * Y')) with (y * Y' * (X * X')) by lia. rewrite Hb. lia. }
+  assert (Q1 : 0 < X' * Y') by nia. assert (Q2 : 0 < X * Y) by nia.
+  destruct (N.ltb_spec (x * Y) (y * X)) as [H|H], (N.ltb_spec (x' * Y') (y' * X')) as [H'|H']; try reflexivity; exfalso.
+  - apply (N.mul_lt_mono_pos_r (X' * Y')) in H; [|assumption]. rewrite K, L in H.
+    apply (N.mul_le_mono_r _ _ (X * Y)) in H'. lia.
+  - apply (N.mul_lt_mono_pos_r (X * Y)) in H'; [|assumption]. rewrite <- K, <- L in H'.
+    apply (N.mul_le_mono_r _ _ (X' * Y')) in H. lia.
+Qed.
+
+Definition rp_ratio (r : ratio) : ratio :=
+  match parse_ratio (show_ratio r) with Ok r' => r' | _ => r end.
+
+Lemma s_for_edges : forallb edge_ok s_for = true.
+Proof. reflexivity. Qed.
+
+Lemma ratio_text_trim a b :
+  forallb edge_ok a = true -> is_nil a = false -> forallb edge_ok b = true -> is_nil b = false ->
+  trim (a ++ s_for ++ b) = a ++ s_for ++ b /\ edges_ok (a ++ s_for ++ b) = true.
+Proof.
+  intros Ha Na Hb Nb.
+  assert (E : edges_ok (a ++ s_for ++ b) = true).
+  { apply edges_all.
+    - destruct a; [discriminate|reflexivity].
+    - rewrite !forallb_app, Ha, Hb, s_for_edges. reflexivity. }
+  split; [apply trim_edges; exact E|exact E].
+Qed.
+
+Lemma valid_ratio_spec r :
+  valid_ratio r = true ->
+  valid_dec (r_post r) = true /\ valid_dec (r_pre r) = true /\ dec_pos (r_post r) = true
+  /\ dec_pos (r_pre r) = true
+  /\ (r_rio r = true -> ratio_is_reverse r = true /\ dec_is_integer (r_post r) = true /\ dec_is_integer (r_pre r) = true)
+  /\ (dec_is_integer (r_post r) = true -> dec_is_integer (r_pre r) = true -> ratio_is_reverse r = true ->
+      r_rio r = false -> int_part (r_post r) * 10 <= max_mant /\ int_part (r_pre r) * 10 <= max_mant).
+Proof.
+  unfold valid_ratio. rewrite !andb_true_iff, !orb_true_iff. intros [[[[[V1 V2] P1] P2] C1] C2].
+  repeat split; auto.
+  - destruct C1 as [C|C]; [rewrite H in C; discriminate|]. rewrite !andb_true_iff in C. apply C.
+  - destruct C1 as [C|C]; [rewrite H in C; discriminate|]. rewrite !andb_true_iff in C. apply C.
+  - destruct C1 as [C|C]; [rewrite H in C; discriminate|]. rewrite !andb_true_iff in C. apply C.
+  - destruct C2 as [C|C]; [rewrite H, H0, H1, H2 in C; discriminate|].
+    rewrite andb_true_iff, !N.leb_le in C. apply C.
+  - destruct C2 as [C|C]; [rewrite H, H0, H1, H2 in C; discriminate|].
+    rewrite andb_true_iff, !N.leb_le in C. apply C.
+Qed.
+
+Theorem ratio_roundtrip r :
+  valid_ratio r = true ->
+  parse_ratio (show_ratio r) = Ok (rp_ratio r)
+  /\ dec_same (r_post r) (r_post (rp_ratio r)) /\ dec_same (r_pre r) (r_pre (rp_ratio r))
+  /\ r_rio (rp_ratio r) = r_rio r /\ show_ratio (rp_ratio r) = show_ratio r
+  /\ edges_ok (show_ratio r) = true.
+Proof.
+  intros Hv. destruct (valid_ratio_spec r Hv) as [V1 [V2 [P1 [P2 [C1 C2]]]]].
+  pose proof (proj1 (dec_pos_spec _) P1) as [N1 _]. pose proof (proj1 (dec_pos_spec _) P2) as [N2 _].
+  (* the two rendered terms and their exact parses *)
+  assert (Hparts : exists pa pb post' pre',
+    show_ratio r = fmt_prec pa (r_post r) ++ s_for ++ fmt_prec pb (r_pre r)
+    /\ parse_dec_exact (fmt_prec pa (r_post r)) = Ok post' /\ parse_dec_exact (fmt_prec pb (r_pre r)) = Ok pre'
+    /\ dec_same (r_post r) post' /\ dec_same (r_pre r) pre'
+    /\ (negb (pa =? 0)%nat || negb (pb =? 0)%nat = false -> r_rio r = ratio_is_reverse r)
+    /\ (negb (pa =? 0)%nat || negb (pb =? 0)%nat = true -> r_rio r = false)
+    /\ (forall r', dec_same (r_post r) (r_post r') -> dec_same (r_pre r) (r_pre r') -> r_rio r' = r_rio r ->
+        show_ratio r' = fmt_prec pa (r_post r') ++ s_for ++ fmt_prec pb (r_pre r')
+        \/ (pa = d_scale (r_post r) /\ pb = d_scale (r_pre r) /\
+            show_ratio r' = dec_to_string (r_post r') ++ s_for ++ dec_to_string (r_pre r')))).
+  { unfold show_ratio.
+    destruct (dec_is_integer (r_post r) && dec_is_integer (r_pre r)) eqn:Ei.
+    - apply andb_prop in Ei. destruct Ei as [I1 I2].
+      destruct (ratio_is_reverse r && negb (r_rio r)) eqn:Er.
+      + apply andb_prop in Er. destruct Er as [R Hrio]. apply negb_true_iff in Hrio.
+        destruct (C2 I1 I2 R Hrio) as [F1 F2].
+        destruct (parse_exact_prec1 _ V1 P1 I1 F1) as [post' [E1 S1]].
+        destruct (parse_exact_prec1 _ V2 P2 I2 F2) as [pre' [E2 S2]].
+        exists 1%nat, 1%nat, post', pre'. repeat split; auto; try discriminate; try apply S1; try apply S2.
+        intros r' S1' S2' Hr'. left. unfold show_ratio.
+        rewrite <- (dec_same_integer _ _ S1'), <- (dec_same_integer _ _ S2'), I1, I2. cbn [andb].
+        unfold ratio_is_reverse. rewrite <- (mag_ltb_same _ _ _ _ S1' S2'). fold (ratio_is_reverse r).
+        rewrite R, Hr', Hrio. reflexivity.
+      + destruct (parse_exact_prec0 _ V1 P1 I1) as [post' [E1 S1]].
+        destruct (parse_exact_prec0 _ V2 P2 I2) as [pre' [E2 S2]].
+        exists 0%nat, 0%nat, post', pre'. repeat split; auto; try discriminate; try apply S1; try apply S2.
+        * intros _. destruct (ratio_is_reverse r) eqn:R; cbn [andb] in Er.
+          -- apply negb_false_iff in Er. exact Er.
+          -- destruct (r_rio r) eqn:Hrio; [|reflexivity]. destruct (C1 eq_refl) as [R' _]. congruence.
+        * intros r' S1' S2' Hr'. left. unfold show_ratio.
+          rewrite <- (dec_same_integer _ _ S1'), <- (dec_same_integer _ _ S2'), I1, I2. cbn [andb].
+          unfold ratio_is_reverse. rewrite <- (mag_ltb_same _ _ _ _ S1' S2'). fold (ratio_is_reverse r).
+          rewrite Hr', Er. reflexivity.
+    - exists (d_scale (r_post r)), (d_scale (r_pre r)), (r_post r), (r_pre r).
+      assert (Hrio : r_rio r = false).
+      { destruct (r_rio r) eqn:Hrio; [|reflexivity]. destruct (C1 eq_refl) as [_ [I1 I2]].
+        rewrite I1, I2 in Ei. discriminate. }
+      assert (Hsc : negb (d_scale (r_post r) =? 0)%nat || negb (d_scale (r_pre r) =? 0)%nat = true).
+      { apply andb_false_iff in Ei. apply orb_true_iff.
+        assert (Z : forall d, dec_is_integer d = false -> negb (d_scale d =? 0)%nat = true).
+        { intros d Hd. apply negb_true_iff, Nat.eqb_neq. intros E0. unfold dec_is_integer in Hd.
+          rewrite E0, pow10_0, N.mod_1_r in Hd. discriminate. }
+        destruct Ei as [E|E]; [left|right]; apply Z; exact E. }
+      repeat split; try reflexivity; try (apply parse_exact_natural; assumption).
+      + intros H. rewrite Hsc in H. discriminate.
+      + intros _. exact Hrio.
+      + intros r' S1' S2' Hr'. right. repeat split. unfold show_ratio.
+        rewrite <- (dec_same_integer _ _ S1'), <- (dec_same_integer _ _ S2'), Ei. reflexivity. }
+  destruct Hparts as [pa [pb [post' [pre' [Eshow [E1 [E2 [S1 [S2 [Hr0 [Hr1 Hshow']]]]]]]]]]].
+  destruct (digdot_fmt pa _ N1) as [DA NA]. destruct (digdot_fmt pb _ N2) as [DB NB].
+  destruct (fmt_prec_all_edge pa (r_post r)) as [EA _]. destruct (fmt_prec_all_edge pb (r_pre r)) as [EB _].
+  destruct (ratio_text_trim _ _ EA NA EB NB) as [Htrim Hedges].
+  assert (P1' : dec_pos post' = true) by (rewrite <- (dec_same_pos _ _ S1); exact P1).
+  assert (P2' : dec_pos pre' = true) by (rewrite <- (dec_same_pos _ _ S2); exact P2).
+  pose proof (parse_ratio_parts _ _ _ _ DA NA DB NB Htrim E1 E2 P1' P2') as EP.
+  rewrite (hdd_fmt pa _ N1), (hdd_fmt pb _ N2), <- negb_orb in EP. rewrite <- Eshow in EP.
+  assert (Hrev : ratio_is_reverse {| r_post := post'; r_pre := pre';
+                                      r_rio := negb (negb (pa =? 0)%nat || negb (pb =? 0)%nat) |}
+                 = ratio_is_reverse r).
+  { unfold ratio_is_reverse. cbn [r_post r_pre]. symmetry. apply mag_ltb_same; assumption. }
+  cbv zeta in EP. rewrite Hrev in EP.
+  assert (Hres : exists rio', parse_ratio (show_ratio r) = Ok {| r_post := post'; r_pre := pre'; r_rio := rio' |}
+                              /\ rio' = r_rio r).
+  { destruct (negb (pa =? 0)%nat || negb (pb =? 0)%nat) eqn:Ed.
+    - exists false. rewrite (Hr1 eq_refl). split; [|reflexivity]. rewrite EP.
+      destruct (ratio_is_reverse r); reflexivity.
+    - specialize (Hr0 eq_refl). cbn [negb] in EP. destruct (ratio_is_reverse r) eqn:R.
+      + exists true. split; [exact EP|]. symmetry. exact Hr0.
+      + exists false. split; [exact EP|]. symmetry. exact Hr0. }
+  destruct Hres as [rio' [EP' Hrio']]. subst rio'.
+  unfold rp_ratio. rewrite EP'. cbn [r_post r_pre r_rio].
+  repeat split; auto; try apply S1; try apply S2.
+  - destruct (Hshow' {| r_post := post'; r_pre := pre'; r_rio := r_rio r |} S1 S2 eq_refl) as [Hs|[Hpa [Hpb Hs]]];
+      rewrite Hs, Eshow; cbn [r_post r_pre].
+    + rewrite (fmt_prec_same pa _ _ S1), (fmt_prec_same pb _ _ S2). reflexivity.
+    + subst pa pb. pose proof (parse_exact_natural _ V1 P1) as Q1. pose proof (parse_exact_natural _ V2 P2) as Q2.
+      unfold dec_to_string in Q1, Q2. rewrite Q1 in E1. rewrite Q2 in E2.
+      inversion E1; inversion E2; subst. reflexivity.
+  - rewrite Eshow. exact Hedges.
 Qed.
